@@ -28,7 +28,9 @@ Added by the seeding rounds - C06.2 every parameter of Allocation.update is
 applied on every path; C06.3 the priority-0 override keys on the instance's
 priority; C06.5 single membership (an instance joins a queue only after
 leaving app.allocation) and the merge is heapq.merge over every sub-queue plus
-the own queue; C06.7 an explicit priority 0 is honoured.
+the own queue; C06.7 an explicit priority 0 is honoured. Fourth round: C06.5
+the join with the given allocation happens on every path of add_app; C06.7 the
+assignment table is rebuilt by every load_allocations.
 Does NOT decide rank monotonicity and per-allocation order through the
 recursive re-scored merge (numeric, depends on the whole tree) - the larger
 half of the property.
